@@ -5,6 +5,8 @@ import Srctools.Proofs.StructCodec
 
 * finders: `Finder.call_spec`, `EFinder.call_spec`
 * run-length coding: `rle_roundtrip`, `rle_roundtrip_in_stream`
+* texture-name table: `tex_roundtrip`, `texFold_too_long`
+* visibility lump: `vis_roundtrip`
 -/
 namespace C11
 open StructCodec
@@ -334,5 +336,338 @@ theorem rle_roundtrip_in_stream (pre post d : Bytes) (m : Nat) (hd : d.length = 
   simp only [zeros, List.replicate_zero, List.nil_append] at hr
   simp only [rleDecode, retBytes, List.drop_left, rleEncode, hr]
   rw [List.take_left' hd]
+
+/-! ## texture-name table -/
+
+theorem nulIdx_append (name : Bytes) (rest : Bytes) (h : (0 : UInt8) ∉ name) :
+    nulIdx (name ++ 0 :: rest) = some name.length := by
+  induction name with
+  | nil => simp [nulIdx]
+  | cons b bs ih =>
+    have hb : b ≠ 0 := fun e => h (by simp [e])
+    have hbs : (0 : UInt8) ∉ bs := fun e => h (by simp [e])
+    simp [nulIdx, hb, ih hbs]
+
+/-- reading at an offset where `name ++ [0]` starts returns `name` -/
+theorem texReadOne_of_prefix (limit : Nat) (data : Bytes) (off : Nat) (name : Bytes)
+    (hn : (0 : UInt8) ∉ name) (hl : name.length < limit)
+    (hp : name ++ [0] <+: data.drop off) : texReadOne limit data off = .ok name := by
+  obtain ⟨t, ht⟩ := hp
+  unfold texReadOne
+  rw [← ht]
+  have h1 : ((name ++ [0] ++ t).take limit) = name ++ 0 :: (t.take (limit - name.length - 1)) := by
+    rw [List.append_assoc, List.take_append]
+    have : List.take limit name = name := List.take_of_length_le (by omega)
+    rw [this]
+    congr 1
+    have : limit - name.length = (limit - name.length - 1) + 1 := by omega
+    rw [this]; simp
+  rw [h1, nulIdx_append name _ hn]
+  simp
+
+theorem findSubFrom_spec (needle : Bytes) : ∀ (hay : Bytes) (i j : Nat),
+    findSubFrom needle i hay = some j → i ≤ j ∧ needle <+: hay.drop (j - i) := by
+  intro hay
+  induction hay with
+  | nil =>
+    intro i j h
+    simp only [findSubFrom] at h
+    split at h
+    · rename_i he; injection h with h; subst h
+      simp [List.isEmpty_iff.mp he]
+    · cases h
+  | cons x xs ih =>
+    intro i j h
+    simp only [findSubFrom] at h
+    split at h
+    · rename_i hp; injection h with h; subst h
+      simp only [Nat.le_refl, Nat.sub_self, List.drop_zero, true_and]
+      exact List.isPrefixOf_iff_prefix.mp hp
+    · obtain ⟨h1, h2⟩ := ih (i + 1) j h
+      refine ⟨by omega, ?_⟩
+      have : j - i = (j - (i + 1)) + 1 := by omega
+      rw [this, List.drop_succ_cons]; exact h2
+
+theorem prefix_drop_append (s data x : Bytes) (j : Nat) (hs : s ≠ []) (h : s <+: data.drop j) :
+    s <+: (data ++ x).drop j := by
+  have hj : j ≤ data.length := by
+    rcases Nat.lt_or_ge data.length j with hlt | hge
+    · rw [List.drop_eq_nil_of_le (Nat.le_of_lt hlt)] at h
+      exact absurd (List.prefix_nil.mp h) hs
+    · exact hge
+  rw [List.drop_append_of_le_length hj]
+  exact List.IsPrefix.trans h (List.prefix_append _ _)
+
+/-- invariant of the writer's state: every recorded offset points at its name followed by NUL -/
+def TexInv (data : Bytes) : List Nat → List Bytes → Prop
+  | [], [] => True
+  | o :: os, n :: ns => (n ++ [0] <+: data.drop o) ∧ TexInv data os ns
+  | _, _ => False
+
+theorem TexInv_append (data x : Bytes) : ∀ (os : List Nat) (ns : List Bytes),
+    TexInv data os ns → TexInv (data ++ x) os ns := by
+  intro os
+  induction os with
+  | nil => intro ns h; cases ns <;> simp_all [TexInv]
+  | cons o os ih =>
+    intro ns h
+    cases ns with
+    | nil => simp [TexInv] at h
+    | cons n ns =>
+      simp only [TexInv] at h ⊢
+      exact ⟨prefix_drop_append _ _ _ _ (by simp) h.1, ih ns h.2⟩
+
+theorem TexInv_snoc (data : Bytes) (o : Nat) (n : Bytes) (hp : n ++ [0] <+: data.drop o) :
+    ∀ (os : List Nat) (ns : List Bytes), TexInv data os ns → TexInv data (os ++ [o]) (ns ++ [n]) := by
+  intro os
+  induction os with
+  | nil => intro ns h; cases ns <;> simp_all [TexInv]
+  | cons o' os ih =>
+    intro ns h
+    cases ns with
+    | nil => simp [TexInv] at h
+    | cons n' ns =>
+      simp only [TexInv, List.cons_append] at h ⊢
+      exact ⟨h.1, ih ns h.2⟩
+
+theorem texFold_spec (limit : Nat) : ∀ (names done : List Bytes) (data : Bytes) (offs : List Nat),
+    (∀ n ∈ names, n.length < limit) → TexInv data offs done →
+    ∃ data' offs', texFold limit (data, offs) names = .ok (data', offs') ∧ TexInv data' offs' (done ++ names) := by
+  intro names
+  induction names with
+  | nil => intro done data offs _ h; exact ⟨data, offs, rfl, by simpa using h⟩
+  | cons n ns ih =>
+    intro done data offs hl hinv
+    have hn : n.length < limit := hl n (by simp)
+    cases hf : findSubFrom (n ++ [0]) 0 data with
+    | some i =>
+      obtain ⟨_, hp⟩ := findSubFrom_spec _ _ _ _ hf
+      obtain ⟨d', o', h1, h2⟩ := ih (done ++ [n]) data (offs ++ [i]) (fun m hm => hl m (by simp [hm]))
+        (TexInv_snoc data i n (by simpa using hp) offs done hinv)
+      refine ⟨d', o', ?_, by simpa using h2⟩
+      simp only [texFold, texStep, Nat.not_le.mpr hn, if_false, hf]
+      exact h1
+    | none =>
+      obtain ⟨d', o', h1, h2⟩ := ih (done ++ [n]) (data ++ (n ++ [0])) (offs ++ [data.length])
+        (fun m hm => hl m (by simp [hm]))
+        (TexInv_snoc _ _ n (by simp) offs done (TexInv_append data _ offs done hinv))
+      refine ⟨d', o', ?_, by simpa using h2⟩
+      simp only [texFold, texStep, Nat.not_le.mpr hn, if_false, hf]
+      exact h1
+
+theorem texRead_of_inv (limit : Nat) (data : Bytes) : ∀ (offs : List Nat) (names : List Bytes),
+    (∀ n ∈ names, n.length < limit ∧ (0 : UInt8) ∉ n) → TexInv data offs names →
+    texRead limit data offs = .ok names := by
+  intro offs
+  induction offs with
+  | nil => intro names _ h; cases names <;> simp_all [TexInv, texRead]
+  | cons o os ih =>
+    intro names hn h
+    cases names with
+    | nil => simp [TexInv] at h
+    | cons n ns =>
+      simp only [TexInv] at h
+      have h1 := texReadOne_of_prefix limit data o n (hn n (by simp)).2 (hn n (by simp)).1 h.1
+      have h2 := ih ns (fun m hm => hn m (by simp [hm])) h.2
+      simp [texRead, h1, h2]
+
+/-- **Texture-name table round trip**: NUL-free names shorter than the limit are read back exactly,
+whatever de-duplication (`bytes.find`, including matches inside other names) the writer did. -/
+theorem tex_roundtrip (limit : Nat) (names : List Bytes)
+    (hn : ∀ n ∈ names, n.length < limit ∧ (0 : UInt8) ∉ n) :
+    ∃ data offs, texWrite limit names = .ok (data, offs) ∧ texRead limit data offs = .ok names := by
+  obtain ⟨data, offs, h1, h2⟩ := texFold_spec limit names [] [] [] (fun n h => (hn n h).1) trivial
+  exact ⟨data, offs, h1, texRead_of_inv limit data offs names hn (by simpa using h2)⟩
+
+theorem texFold_too_long (limit : Nat) : ∀ (names : List Bytes) (st : Bytes × List Nat),
+    (∃ n ∈ names, limit ≤ n.length) → texFold limit st names = .error .tooLong := by
+  intro names
+  induction names with
+  | nil => intro st h; obtain ⟨n, hn, _⟩ := h; cases hn
+  | cons n ns ih =>
+    intro st h
+    by_cases hl : limit ≤ n.length
+    · simp [texFold, texStep, hl]
+    · have hex : ∃ m ∈ ns, limit ≤ m.length := by
+        obtain ⟨m, hm, hml⟩ := h
+        rcases List.mem_cons.mp hm with rfl | hm'
+        · exact absurd hml hl
+        · exact ⟨m, hm', hml⟩
+      simp only [texFold, texStep, hl, if_false]
+      cases findSubFrom (n ++ [0]) 0 st.1 <;> exact ih _ hex
+
+
+/-! ## visibility lump -/
+
+theorem rle_roundtrip_at (data : Bytes) (start : Nat) (d post : Bytes) (m : Nat)
+    (hd : d.length = (m + 7) / 8) (hpost : wfStream post = true)
+    (h : data.drop start = rleEncode d ++ post) : rleDecode data start (some m) = .ok d := by
+  obtain ⟨r, h', hr, _⟩ := dec_enc_aux ((m + 7) / 8) d 0 0 true post (by simp [hd])
+    (good_of_wf _ _ post (Nat.le_refl _) hpost _)
+  simp only [zeros, List.replicate_zero, List.nil_append] at hr
+  simp only [rleDecode, retBytes, h, rleEncode, hr]
+  rw [List.take_left' hd]
+
+theorem wfStream_visRows : ∀ (ps as : List Bytes) (off : Nat), wfStream (visRows off ps as).2 = true := by
+  intro ps
+  induction ps with
+  | nil => intro as off; simp [visRows, wfStream]
+  | cons p ps ih =>
+    intro as off
+    cases as with
+    | nil => simp [visRows, wfStream]
+    | cons a as =>
+      simp only [visRows]
+      rw [List.append_assoc]
+      apply wfStream_append _ _ _ (Nat.le_refl _) (wfStream_rleEncode p)
+      exact wfStream_append _ _ _ (Nat.le_refl _) (wfStream_rleEncode a) (ih as _)
+
+theorem mapError_ok {ε ε' α : Type} (f : ε → ε') (r : Except ε α) (b : α) (h : r.mapError f = .ok b) : r = .ok b := by
+  cases r with
+  | ok x => simpa [Except.mapError] using h
+  | error x => simp [Except.mapError] at h
+
+theorem bind_ok {ε α β : Type} (x : Except ε α) (f : α → Except ε β) (b : β) (h : x.bind f = .ok b) :
+    ∃ a, x = .ok a ∧ f a = .ok b := by
+  cases x with
+  | ok a => exact ⟨a, rfl, h⟩
+  | error e => simp [Except.bind] at h
+
+theorem map_ok {ε α β : Type} (x : Except ε α) (f : α → β) (b : β) (h : x.map f = .ok b) :
+    ∃ a, x = .ok a ∧ b = f a := by
+  cases x with
+  | ok a => exact ⟨a, rfl, by simpa [Except.map] using h.symm⟩
+  | error e => simp [Except.map] at h
+
+theorem pack32_ok {n : Nat} {b : Bytes} (h : pack32 n = .ok b) : packInt 4 true (n : Int) = .ok b :=
+  mapError_ok _ _ _ h
+
+theorem pack32_spec {n : Nat} {b : Bytes} (h : pack32 n = .ok b) :
+    b.length = 4 ∧ unpackInt 4 true b = (n : Int) :=
+  ⟨packInt_length (pack32_ok h), unpackInt_packInt 4 (by decide) true _ _ (pack32_ok h)⟩
+
+theorem visEntry_ok {p a : Nat} {e : Bytes} (h : visEntry (p, a) = .ok e) :
+    ∃ bp ba, pack32 p = .ok bp ∧ pack32 a = .ok ba ∧ e = bp ++ ba := by
+  obtain ⟨bp, h1, h2⟩ := bind_ok _ _ _ h
+  obtain ⟨ba, h3, h4⟩ := map_ok _ _ _ h2
+  exact ⟨bp, ba, h1, h3, h4⟩
+
+theorem catOk_cons_ok {x : Except LumpErr Bytes} {xs : List (Except LumpErr Bytes)} {t : Bytes}
+    (h : catOk (x :: xs) = .ok t) : ∃ b r, x = .ok b ∧ catOk xs = .ok r ∧ t = b ++ r := by
+  simp only [catOk] at h
+  cases x with
+  | error e => simp at h
+  | ok b =>
+    simp only at h
+    cases hr : catOk xs with
+    | error e => simp [hr] at h
+    | ok r => simp only [hr] at h; exact ⟨b, r, rfl, rfl, by simpa using h.symm⟩
+
+theorem visReadRows_spec (count : Nat) (data : Bytes) : ∀ (ps as : List Bytes) (off i : Nat) (tbl : Bytes),
+    ps.length = as.length →
+    (∀ r ∈ ps, r.length = (count + 7) / 8) → (∀ r ∈ as, r.length = (count + 7) / 8) →
+    visTable (visRows off ps as).1 = .ok tbl →
+    (data.drop (4 + 8 * i)).take (8 * ps.length) = tbl →
+    data.drop off = (visRows off ps as).2 →
+    visReadRows data count ps.length i = .ok (ps, as) := by
+  intro ps
+  induction ps with
+  | nil =>
+    intro as off i tbl hl _ _ _ _ _
+    cases as with
+    | nil => simp [visReadRows]
+    | cons _ _ => simp at hl
+  | cons p ps ih =>
+    intro as off i tbl hl hp ha htbl hent hrows
+    cases as with
+    | nil => simp at hl
+    | cons a as =>
+      simp only [visRows] at htbl hrows
+      simp only [visTable, List.map_cons] at htbl
+      obtain ⟨e, tbl', he, htl, htbl⟩ := catOk_cons_ok htbl
+      obtain ⟨bp, ba, hbp, hba, hee⟩ := visEntry_ok he
+      subst hee
+      obtain ⟨lbp, ubp⟩ := pack32_spec hbp
+      obtain ⟨lba, uba⟩ := pack32_spec hba
+      have hent8 : (data.drop (4 + 8 * i)).take 8 = bp ++ ba := by
+        have h8 : 8 ≤ 8 * (p :: ps).length := by simp; omega
+        have := congrArg (List.take 8) hent
+        rw [List.take_take, Nat.min_eq_left h8] at this
+        rw [this, htbl, List.take_left' (by simp [lbp, lba])]
+      have hrest : (data.drop (4 + 8 * (i + 1))).take (8 * ps.length) = tbl' := by
+        have := congrArg (List.drop 8) hent
+        rw [List.drop_take, List.drop_drop] at this
+        have e1 : 4 + 8 * i + 8 = 4 + 8 * (i + 1) := by omega
+        have e2 : 8 * (p :: ps).length - 8 = 8 * ps.length := by simp; omega
+        rw [e1, e2] at this
+        rw [this, htbl, List.drop_left' (by simp [lbp, lba])]
+      have hrp : rleDecode data off (some count) = .ok p := by
+        apply rle_roundtrip_at data off p _ count (hp p (by simp)) _ (by rw [hrows, List.append_assoc])
+        exact wfStream_append _ _ _ (Nat.le_refl _) (wfStream_rleEncode a) (wfStream_visRows ps as _)
+      have hdrop2 : data.drop (off + (rleEncode p).length) = rleEncode a ++ (visRows (off + (rleEncode p).length + (rleEncode a).length) ps as).2 := by
+        rw [← List.drop_drop, hrows, List.append_assoc, List.drop_left]
+      have hra : rleDecode data (off + (rleEncode p).length) (some count) = .ok a :=
+        rle_roundtrip_at data _ a _ count (ha a (by simp)) (wfStream_visRows ps as _) hdrop2
+      have hdrop3 : data.drop (off + (rleEncode p).length + (rleEncode a).length) = (visRows (off + (rleEncode p).length + (rleEncode a).length) ps as).2 := by
+        rw [← List.drop_drop, hdrop2, List.drop_left]
+      have hih := ih as (off + (rleEncode p).length + (rleEncode a).length) (i + 1) tbl' (by simpa using hl)
+        (fun r hr => hp r (by simp [hr])) (fun r hr => ha r (by simp [hr])) htl hrest hdrop3
+      simp only [List.length_cons, visReadRows, hent8]
+      have hl8 : ¬ ((bp ++ ba).length < 8) := by simp [lbp, lba]
+      simp only [hl8, if_false, List.take_left' lbp, List.drop_left' lbp, ubp, uba]
+      have hnn : ¬ (((off : Nat) : Int) < 0 ∨ ((off + (rleEncode p).length : Nat) : Int) < 0) := by omega
+      simp only [hnn, if_false, Int.toNat_natCast, hrp, hra, hih]
+
+theorem catOk_length8 : ∀ (l : List (Nat × Nat)) (tbl : Bytes), visTable l = .ok tbl → tbl.length = 8 * l.length := by
+  intro l
+  induction l with
+  | nil => intro tbl h; simp [visTable, catOk] at h; subst h; rfl
+  | cons x xs ih =>
+    intro tbl h
+    obtain ⟨p, a⟩ := x
+    simp only [visTable, List.map_cons] at h
+    obtain ⟨e, t, he, ht, htbl⟩ := catOk_cons_ok h
+    obtain ⟨bp, ba, hbp, hba, hee⟩ := visEntry_ok he
+    subst hee; subst htbl
+    simp [(pack32_spec hbp).1, (pack32_spec hba).1, ih t ht]; omega
+
+theorem visRows_length : ∀ (ps as : List Bytes) (off : Nat), ps.length = as.length →
+    (visRows off ps as).1.length = ps.length := by
+  intro ps
+  induction ps with
+  | nil => intro as off _; simp [visRows]
+  | cons p ps ih =>
+    intro as off hl
+    cases as with
+    | nil => simp at hl
+    | cons a as => simp [visRows, ih as _ (by simpa using hl)]
+
+/-- **Visibility lump round trip.** If `_lmp_write_visibility` succeeds (all offsets fit `int32`) on
+`n` clusters whose rows all have `ceil(n/8)` bytes, `_lmp_read_visibility` returns the same rows. -/
+theorem vis_roundtrip (pvs pas : List Bytes) (data : Bytes)
+    (hp : ∀ r ∈ pvs, r.length = (pvs.length + 7) / 8) (ha : ∀ r ∈ pas, r.length = (pvs.length + 7) / 8)
+    (h : visWrite pvs pas = .ok data) : visRead data = .ok (pvs, pas) := by
+  unfold visWrite at h
+  split at h
+  · cases h
+  · rename_i hl
+    have hl : pvs.length = pas.length := by simpa using hl
+    obtain ⟨hdr, hh, h⟩ := bind_ok _ _ _ h
+    obtain ⟨tbl, ht, h⟩ := map_ok _ _ _ h
+    obtain ⟨lh, uh⟩ := pack32_spec hh
+    have ltbl : tbl.length = 8 * pvs.length := by
+      rw [catOk_length8 _ _ ht, visRows_length _ _ _ hl]
+    subst h
+    unfold visRead
+    have hlen : ¬ ((hdr ++ tbl ++ (visRows (4 + 8 * pvs.length) pvs pas).2).length < 4) := by simp [lh]
+    rw [if_neg hlen]
+    have htake : (hdr ++ tbl ++ (visRows (4 + 8 * pvs.length) pvs pas).2).take 4 = hdr := by
+      rw [List.append_assoc, List.take_left' lh]
+    simp only [htake, uh]
+    rw [if_neg (by omega), Int.toNat_natCast]
+    apply visReadRows_spec pvs.length _ pvs pas (4 + 8 * pvs.length) 0 tbl hl hp ha ht
+    · simp only [Nat.mul_zero, Nat.add_zero]
+      rw [List.append_assoc, List.drop_left' lh, List.take_left' ltbl]
+    · rw [show 4 + 8 * pvs.length = (hdr ++ tbl).length by simp [lh, ltbl], List.drop_left]
 
 end C11
